@@ -88,6 +88,8 @@ def fault_worlds(tier, seed):
     for i in range(nworlds):
         rng = Rng(seed, "c13", i)
         w = W.gen_small_world(rng) if i % 2 else W.gen_fault_world(rng)
+        if i % 6 == 4:
+            w = W.gen_world_short_image(rng)
         w.threads = 1 if i % 4 else rng.choice([2, 3])
         w.tag = "fault-free"
         base = W.execute(w)
@@ -408,7 +410,8 @@ PROPS = {
                                     + worlds_default(t, s, "c07", 60, 1200),
                 unit_stream=lambda t, s: unit.c07_stream(t, s)),
     "C12": dict(module="TB.Props.C12", theorems=["C12_path", "C12_only_run", "C12_len", "C12_disjoint"], clauses=["c12-"],
-                worlds=lambda t, s: [W.gen_world_dup_path(Rng(s, "c12-dup", 0))] + worlds_default(t, s, "c12", 300, 6000, tweak_threads)
+                worlds=lambda t, s: [W.gen_world_dup_path(Rng(s, "c12-dup", 0))] + [W.gen_world_infohash_prefix_pair(Rng(s, "c12-pair", i)) for i in range(2)]
+                                    + worlds_default(t, s, "c12", 300, 6000, tweak_threads)
                                     + partial_write_worlds(t, s, "c12-partial")),
     "C14": dict(module="TB.Props.C14", theorems=["C14_abort", "C14_pass2_ops", "C14_noflag"], clauses=["c14-", "c16-"],
                 worlds=lambda t, s: [W.gen_world_resize_huge(Rng(s, "c14-huge", i)) for i in range(6 if t == "quick" else 30)]
@@ -416,7 +419,7 @@ PROPS = {
                                     + [W.gen_world_dup_path_resize(Rng(s, "c14-dup", i)) for i in range(40 if t == "quick" else 400)]
                                     + [W.gen_world_c14(Rng(s, "c14", i)) for i in range(400 if t == "quick" else 8000)]
                                     + resize_fault_worlds(t, s)),
-    "C15": dict(module="TB.Props.C15", theorems=["C15_sum", "C15_run", "C15_dedup"], clauses=["c15-", "c16-"], worlds=lambda t, s: worlds_default(t, s, "c15", 300, 6000, tweak_threads),
+    "C15": dict(module="TB.Props.C15", theorems=["C15_sum", "C15_run", "C15_dedup"], clauses=["c15-", "c16-", "c02-"], worlds=lambda t, s: worlds_default(t, s, "c15", 300, 6000, tweak_threads),
                 runner=lambda ws: run_with_cli(ws, 60 if len(ws) <= 1000 else 600), with_bin=True),
     "C16": dict(module="TB.Props.C16", theorems=["C16_empty", "C16_validate", "C16_piece_total_partial"], clauses=["c16-", "c03-"],
                 worlds=lambda t, s: [W.gen_world_many_segments(Rng(s, "c16-segs", i), n) for i, n in enumerate([3000, 30000] if t == "quick" else [3000, 30000, 60000])]
